@@ -281,6 +281,10 @@ func (root *Root) addExtends(extends ...*Extend) (undo []func(), err error) {
 				cur = root.dirs.get(x.Adds.Name())
 			}
 		} else if schema, _ := x.Adds.(*Schema); schema != nil {
+			// With no schema block the schema is implied by the type names,
+			// that is what gets extended. (A nil *Schema in cur would not
+			// compare equal to nil below.)
+			root.assureSchema()
 			cur = root.schema
 		}
 		if cur == nil {
